@@ -87,7 +87,7 @@ def main():
             open(path, "w").write(orig)
             continue
         done += 1
-        r = sh("go test -vet=off -count=1 ./...", cwd=WT, timeout=600)
+        r = sh("go test -vet=off -count=1 -timeout 90s ./...", cwd=WT, timeout=400)
         if r.returncode != 0:
             log.write(f"KILLED-BY-SUITE {desc}\n"); log.flush()
             open(path, "w").write(orig)
